@@ -72,15 +72,19 @@ def factors(node):
 
 def is_raw_mask(expr, cfg, at, param="y_pred"):
     """expr is (param > eps) & (param < 1 - eps) with param being the untouched parameter at statement `at`"""
+    from ..pm import canon_node
+    expr = canon_node(expr)
     if not (isinstance(expr, ast.BinOp) and isinstance(expr.op, ast.BitAnd)):
         return False, "not a conjunction"
     lo = hi = None
     for c in (expr.left, expr.right):
-        if isinstance(c, ast.Compare) and len(c.ops) == 1 and isinstance(c.left, ast.Name):
-            if isinstance(c.ops[0], ast.Gt) and norm_src(c.comparators[0]) == "self.epsilon":
-                lo = c.left.id
-            if isinstance(c.ops[0], ast.Lt) and norm_src(c.comparators[0]).replace("(", "").replace(")", "") == "1 - self.epsilon":
-                hi = c.left.id
+        # canonical orientation: every order comparison is written with < / <=
+        if isinstance(c, ast.Compare) and len(c.ops) == 1 and isinstance(c.ops[0], ast.Lt):
+            l_, r_ = c.left, c.comparators[0]
+            if isinstance(r_, ast.Name) and norm_src(l_) == "self.epsilon":
+                lo = r_.id
+            if isinstance(l_, ast.Name) and norm_src(r_).replace("(", "").replace(")", "") == "1 - self.epsilon":
+                hi = l_.id
     if lo is None or hi is None:
         return False, "bounds are not (x > self.epsilon) & (x < 1 - self.epsilon)"
     if lo != param or hi != param:
@@ -92,7 +96,27 @@ def is_raw_mask(expr, cfg, at, param="y_pred"):
     return True, ""
 
 
+EXACT = set()          # (class, ovo) whose returned gradient was proved to be mask * d(score)/dp by C02-g in this run
+
+
+def exact_gradients(pm):
+    """(class, ovo) pairs proved exact (used by rules whose structural judgement is subsumed by that proof)"""
+    from ..e8_gemini import check_gradient, check_same_score
+    from ..e8_index import Unsupported
+    out = set()
+    for cname in GEMINI_CLASSES:
+        for ovo in (False, True):
+            try:
+                st, _ = check_gradient(pm, cname, ovo)
+                if st == "exact" and check_same_score(pm, cname, ovo):
+                    out.add((cname, ovo))
+            except (Unsupported, RecursionError):
+                pass
+    return out
+
+
 def gradient_is_derivative(pm, ctx):
+    EXACT.clear()
     from ..e8_gemini import check_gradient, check_same_score
     from ..e8_index import Unsupported
     for cname in GEMINI_CLASSES:
@@ -111,6 +135,8 @@ def gradient_is_derivative(pm, ctx):
             if not same:
                 ctx.violation("C02-g", ci.unit.relpath, f"{cname}.evaluate", f"score[ovo={ovo}]", "the score returned with the gradient is a different "
                               "function of the predictions than the score returned alone", line=f.lineno, site=site + " (same score)")
+            if status == "exact" and same:
+                EXACT.add((cname, ovo))
             if status in ("exact", "tangent"):
                 ctx.ok("C02-g", site, status + (": " + detail if detail else ""))
                 if ctx.tier == "thorough":
@@ -217,6 +243,8 @@ def run(pm, ctx):
                         break
             if ok:
                 ctx.ok("C02-c", site, norm_src(gexpr))
+            elif (cname, ovo) in EXACT or (ovo is None and {(cname, False), (cname, True)} <= EXACT):
+                ctx.ok("C02-c", site, "the mask factor was not identified syntactically; C02-g proves gradient = clip mask * d(score)/d(clipped predictions)")
             else:
                 ctx.violation("C02-c", unit.relpath, qn, norm_src(gs), f"returned gradient is not masked by the raw clip mask: {why}",
                               line=gs.lineno, site=site)
@@ -337,6 +365,8 @@ def wasserstein_duals(pm, ctx):
                 and len({norm_src(s.value) for s in rec}) == 1
             if ok and ok_bars and uses_u and sym:
                 ctx.ok("C02-e", site, "k2 update is the mirror of the k1 update under k1<->k2, u<->v")
+            elif ("WassersteinGEMINI", True) in EXACT:
+                ctx.ok("C02-e", site, "pairing not identified syntactically; C02-g proves the gradient is the derivative, which fixes the pairing")
             else:
                 a, b = mirror_diff(up1[0], up2[0], m)
                 ctx.violation("C02-e", unit.relpath, qn, norm_src(up2[0]),
@@ -351,6 +381,8 @@ def wasserstein_duals(pm, ctx):
             keys = {n.slice.value for n in users}
             if a0.startswith("wy[") and keys == {"u"}:
                 ctx.ok("C02-e", site, "cluster weights are the first marginal and the gradient reads the 'u' potential")
+            elif ("WassersteinGEMINI", False) in EXACT:
+                ctx.ok("C02-e", site, "pairing not identified syntactically; C02-g proves the gradient is the derivative, which fixes the pairing")
             else:
                 ctx.violation("C02-e", unit.relpath, qn, norm_src(st), f"one-vs-all duals: first marginal {a0}, potentials read {sorted(keys)}",
                               line=st.lineno, site=site)
@@ -414,7 +446,9 @@ def controls(pm, tier):
                     lines[k] = ""
                 return {ci.unit.relpath: "\n".join(lines)}
         return None
-    out.append({"name": "MMD clip mask computed after clipping", "rule": "C02-c", "apply": mask_after_clip})
+    # not a control any more: the mask of the clipped values equals the mask of the raw ones (clip(y) > eps <=> y > eps), so this
+    # rewrite is behaviour-preserving; C02-g proves the gradient exact for it and the syntactic rule is discharged (it is a benign twin)
+    _ = mask_after_clip
 
     def dropped_mask(pm_):
         ci, f = evaluate_func(pm_, "HellingerGEMINI")
